@@ -14,8 +14,9 @@ for f in SEED/*_test.go; do
   b=$(basename "$f")
   for g in $(git ls-files --others --exclude-standard | grep "/$b$"); do mv "$g" "$g.hidden"; HIDDEN+=("$g"); done
 done
-go test -vet=off -count=1 -ldflags=-checklinkname=0 ./broker/... ./common/... 2>&1 | grep -v "^ok\|no test files" | head -20
-BASE=${PIPESTATUS[0]}
+go test -vet=off -count=1 -ldflags=-checklinkname=0 ./broker/... ./common/... > /tmp/seed_baseline_$ID.txt 2>&1
+BASE=$?
+grep -v "^ok\|no test files" /tmp/seed_baseline_$ID.txt | head -20
 echo "baseline exit=$BASE"
 for g in "${HIDDEN[@]}"; do mv "$g.hidden" "$g"; done
 echo "== demo with change (must fail)"
